@@ -244,6 +244,7 @@ def _batch(ctx, d, binp, label, cfg, consts, stats, warm=None):
     stats["probe_permits"] += sum(1 for r in probes if r["permit"])
     stats["validated"] += validated
     stats["dns_queries"] += sum(o.get("dns_queries", 0) for o in outs.values())
+    stats["dns_rebinds"] += sum(o.get("dns_rebinds", 0) for o in outs.values())
 
 
 def run(ctx):
@@ -256,16 +257,18 @@ def run(ctx):
         binp = vlib.build_bin("net")
         stats = {"keys_all": set(), "keys_nontrivial": set(), "flows_with_connects": 0, "cases_with_predicted_connects": 0, "connects": 0,
                  "requests": 0, "design_divergences": 0, "divergence_samples": [], "connect_targets": set(), "samples_done": False,
-                 "tlc_rejected": 0, "replay_rejected": 0, "tlc_unjudged_after_cap": 0, "cases": 0, "probes": 0, "probe_permits": 0, "validated": 0, "dns_queries": 0}
+                 "tlc_rejected": 0, "replay_rejected": 0, "tlc_unjudged_after_cap": 0, "cases": 0, "probes": 0, "probe_permits": 0, "validated": 0, "dns_queries": 0, "dns_rebinds": 0}
         v = 1 + (ctx.seed - 1) % 3
         if ctx.quick:
             batches = [("Net_quick.cfg variant=%d" % v, "Net_quick.cfg", {"Variant": str(v)})]
         else:
             batches = [("Net_thorough.cfg variant=%d" % k, "Net_thorough.cfg", {"Variant": str(k)}) for k in (1, 2, 3)]
             batches.append(("Net_ans3.cfg variant=%d" % v, "Net_ans3.cfg", {"Variant": str(v)}))
+        complete = True
         for i, (label, cfg, consts) in enumerate(batches):
             _batch(ctx, d, binp, label, cfg, consts, stats, warm if i == 0 else None)
-            if len(ctx.violations) > 40:
+            if len(ctx.violations) > 40 and i + 1 < len(batches):
+                complete = False
                 break
         # observation only (outside the fetches the property enumerates): the opt-in link check of `validate -links`
         try:
@@ -273,7 +276,7 @@ def run(ctx):
             obs = json.loads([l for l in p.stdout.splitlines() if l.startswith("SUMMARY ")][-1][8:])
         except Exception as e:
             obs = {"available": False, "why": str(e)[:200]}
-        if stats["cases_with_predicted_connects"] and stats["flows_with_connects"] * 2 < stats["cases_with_predicted_connects"]:
+        if not ctx.violations and stats["cases_with_predicted_connects"] and stats["flows_with_connects"] * 2 < stats["cases_with_predicted_connects"]:
             raise vlib.HarnessError("vacuous run: the model predicts connect attempts in %d cases, the real code made some in only %d" % (
                 stats["cases_with_predicted_connects"], stats["flows_with_connects"]))
         if stats["design_divergences"]:
@@ -285,13 +288,13 @@ def run(ctx):
                rule="every terminal state of Net.tla within the cfg bounds is one case (kind x allow-list spelling x chain of URL classes, each "
                     "with its resolver answer sequence over the address representatives of the chosen variant); each case is replayed into "
                     "the real fetch path and its record judged by TLC, plus one probe of the real client's dial guard per distinct (allow-list, "
-                    "host, answers); distinct = distinct (kind, allow form, per-hop scheme/userinfo/host form/answer classes); non-trivial = "
+                    "host, answers); distinct = distinct (kind, allow form, per-hop scheme/userinfo/host/answer addresses); non-trivial = "
                     "at least one request of the case got past URL validation to the transport, so a dial guard was consulted",
-               exhaustive=True,
+               exhaustive=complete and stats["tlc_unjudged_after_cap"] == 0,
                replayed_cases=stats["cases"], distinct_cases=len(stats["keys_all"]), guard_probes=stats["probes"],
                guard_probe_permits=stats["probe_permits"], requests_reaching_transport=stats["requests"],
                connect_attempts_recorded=stats["connects"], flows_with_connect_attempts=stats["flows_with_connects"],
-               distinct_connect_targets=len(stats["connect_targets"]), fake_dns_queries=stats["dns_queries"],
+               distinct_connect_targets=len(stats["connect_targets"]), fake_dns_queries=stats["dns_queries"], rebinding_answers_served=stats["dns_rebinds"],
                design_divergences=stats["design_divergences"], divergence_samples=stats["divergence_samples"],
                tlc_rejected_records=stats["tlc_rejected"], replay_only_rejected_flows=stats["replay_rejected"], records_not_judged_after_rerun_cap=stats["tlc_unjudged_after_cap"],
                max_requests_followed={k[13:]: v for k, v in stats.items() if k.startswith("max_requests_")},
